@@ -654,10 +654,8 @@ func (fc *FnCtx) assignAnchors(x *ssa.Store) {
 		if aa.Anchor != "assign" || aa.Var != a.Comment || aa.Ord != ord {
 			continue
 		}
-		// several variables may share a name; the clause applies to the one visible at this store
-		if al := fc.localAlloc(a.Comment, x.Pos()); al != nil && al != a {
-			continue
-		}
+		// (several variables may share a name: the clause then applies to the
+		// k-th store of each of them)
 		aa.Matched++
 		sc := fc.funcScope(fc.env, fc.entryEnv, nil)
 		sc.pos = x.Pos()
@@ -1325,6 +1323,13 @@ func (fc *FnCtx) doGo(x *ssa.Go) {
 			for _, r := range cs.Requires {
 				name := fmt.Sprintf("%s:go(%s)#%d.requires#%d", fc.name, cs.Callee, fc.callOrdOf[x][cs.Callee], r.N)
 				fc.assert("call-requires", name, sc.trBool(r.E), r.Src, s.pos, false)
+			}
+			for _, st := range cs.Sets {
+				t, _ := sc.tr(st.E)
+				if _, ok := fc.ghostTypes[st.Name]; !ok {
+					fc.fail("set of undeclared ghost %s", st.Name)
+				}
+				fc.assign("g_"+st.Name, t)
 			}
 		}
 	}
